@@ -119,6 +119,7 @@ class Unit:
         b = Builder(interp)
         b.node = node
         self.setup(b)
+        b.st.notes.clear()       # heap reads made by the sidecar itself are not program accesses
         # every parameter must be bound by the sidecar
         a = node.args
         for p in (a.posonlyargs + a.args + a.kwonlyargs if self.stmt is None else []):
